@@ -610,6 +610,17 @@ class Explorer:
                 a = ev(i.ops[0])
                 if a is not None and a[0] == "fp":
                     return ("fp", frozenset("pinf" if c == "ninf" else c for c in a[1]))
+            if op in ("fadd", "fsub", "fmul") and len(i.ops) == 2:
+                # a sum, difference or product with an infinite or NaN operand is never finite (inf + x, inf * x are inf or NaN for every x):
+                # without this, `isfinite(a + b)` explored with b = +inf looked passable "for some a", which no a achieves
+                for o in i.ops:
+                    a = ev(o)
+                    if a is not None and a[0] == "fp" and a[1] and "fin" not in a[1]:
+                        return ("fp", frozenset(("pinf", "ninf", "nan")))
+            if op == "fneg":
+                a = ev(i.ops[0])
+                if a is not None and a[0] == "fp":
+                    return ("fp", frozenset({"pinf": "ninf", "ninf": "pinf"}.get(c, c) for c in a[1]))
             return TOP
         if op == "select":
             c = ev(i.ops[0])
